@@ -1550,7 +1550,8 @@ fn exec_files(args: &Opts) {
 			let content = fs::read_to_string(path).unwrap_or_else(complain_and_exit);
 			match execute(args,content, Some(path.clone())) {
 				Ok(output) => {
-					if args.json {
+					if args.json && args.files.len() > 1 {
+						// Like the multi-threaded driver: a single file gives its document, several give a listing
 						json_data.push((path.clone(), output));
 						continue
 					}
@@ -1579,7 +1580,7 @@ fn exec_files(args: &Opts) {
 				Err(e) => eprintln!("vicut: {e}"),
 			};
 		}
-		if args.json {
+		if args.json && args.files.len() > 1 {
 			let json = format_output_json_files(json_data);
 			write!(stdout, "{json}").ok();
 		}
